@@ -29,7 +29,7 @@ FIRST = {
 def main() -> int:
     rows = {}
     for line in open(os.path.join(VERIF, "seeded", "RESULTS.md")):
-        m = re.match(r"\| (C\d\d-[A-D]) \| (C\d\d) \| ([^|]+) \| ([^|]*) \| (.*) \|$", line.rstrip())
+        m = re.match(r"\| (C\d\d-[A-F]) \| (C\d\d) \| ([^|]+) \| ([^|]*) \| (.*) \|$", line.rstrip())
         if m:
             rows[m.group(1)] = m.groups()
     print("| change | what was changed (one line) | needs | first run | now: rule(s) of the own check | also reported by |")
